@@ -68,7 +68,7 @@ func (g *HistGen) c12Op(nextEnt *int) []Op {
 		return nil
 	}
 	e := g.ent(Pick(r, g.Ents).ID)
-	kinds := []string{"edit-subject", "edit-subject", "edit-exts", "edit-issuer", "edit-profile-ref", "add-entity", "remove-entity",
+	kinds := []string{"edit-subject", "edit-subject", "edit-exts", "reorder-exts", "edit-issuer", "edit-profile-ref", "add-entity", "remove-entity",
 		"del-art", "trunc-art", "strip-key", "replace-art", "strip-hash", "touch", "tz", "unusable-key"}
 	if len(g.Profs) > 0 {
 		kinds = append(kinds, "edit-profile")
@@ -89,6 +89,22 @@ func (g *HistGen) c12Op(nextEnt *int) []Op {
 		uniqueRaws(r, ne.Exts)
 		g.setEnt(ne)
 		out = append(out, Op{K: "put-ent", Spec: ne, Label: k})
+	case "reorder-exts":
+		// nothing is added, removed or changed - the same extensions in another order (the entity's own
+		// list, else the profile's): the certificate a clean run produces lists them in the new order
+		if len(e.Exts) >= 2 {
+			ne := e.Clone()
+			ne.Exts = append(append([]ExtSpec{}, ne.Exts[1:]...), ne.Exts[0])
+			g.setEnt(ne)
+			out = append(out, Op{K: "put-ent", Spec: ne, Label: k})
+		} else if len(g.Profs) > 0 && len(g.Profs[0].Exts) >= 2 {
+			p := g.Profs[0].Clone()
+			p.Exts = append(append([]ExtSpec{}, p.Exts[1:]...), p.Exts[0])
+			g.Profs[0] = p
+			out = append(out, Op{K: "put-prof", Prof: p, Label: k})
+		} else {
+			return nil
+		}
 	case "edit-issuer":
 		var cands []*EntitySpec
 		for _, c := range g.Ents {
